@@ -35,7 +35,53 @@ def plan(tier, seed):
 
 def prepare(tier, seed, out_dir):
   build.ensure('asan' if tier == 'thorough' else 'prod')
+  if tier == 'thorough':
+    build.ensure_fuzzer()
   return None
+
+
+FUZZ_DICT = ['":-"', '":="', '"distinct"', '"combine "', '" in "', '" is null"', '"if "', '" then "', '" else "', '"import "', '" as "', '"|"',
+             '"||"', '"&&"', '"~"', '"=>"', '"->"', '"?"', '".."', '"@Ground"', '"@Recursive"', '"{"', '"}"', '"["', '"]"', '"("', '")"',
+             '"\\""', '"\x27"', '"\"\"\""', '"#"', '"/*"', '"*/"', '"`"', '"+="', '"Max="', '"List{"', '"order_by"', '"limit"', '";"']
+
+
+def fuzz_native(ctx, scratch):
+  """Thorough tier: libFuzzer (ASan+UBSan) on the C ABI, seeded with generated programs. Crash / sanitizer only."""
+  import subprocess
+  fz = build.ensure_fuzzer()
+  if not fz:
+    ctx.note('libFuzzer target could not be built')
+    return
+  corpus = os.path.join(scratch, 'corpus')
+  art = os.path.join(scratch, 'artifacts') + os.sep
+  os.makedirs(corpus, exist_ok=True)
+  os.makedirs(art, exist_ok=True)
+  for k in range(40):
+    toks, _ = syntaxgen.generate(ctx.rng, max_depth=ctx.rng.choice([1, 2, 3]))
+    with open(os.path.join(corpus, 'seed%d' % k), 'w') as f:
+      f.write(syntaxgen.render(toks)[:1500])
+  with open(os.path.join(scratch, 'dict'), 'w') as f:
+    f.write('\n'.join(FUZZ_DICT) + '\n')
+  runs = int(ctx.params.get('fuzz_runs', 60000))
+  env = dict(os.environ, ASAN_OPTIONS='detect_leaks=0:abort_on_error=1', UBSAN_OPTIONS='halt_on_error=1:print_stacktrace=1')
+  env.pop('LD_PRELOAD', None)
+  p = subprocess.run([fz, corpus, '-runs=%d' % runs, '-max_len=768', '-seed=%d' % (ctx.rng.randrange(1 << 30) + 1), '-dict=' + os.path.join(scratch, 'dict'),
+                      '-artifact_prefix=' + art, '-timeout=20', '-rss_limit_mb=3000', '-print_final_stats=1'],
+                     stdout=subprocess.PIPE, stderr=subprocess.STDOUT, env=env, cwd=scratch, timeout=3000)
+  out = p.stdout.decode('utf-8', 'replace')
+  import re
+  m = re.search(r'stat::number_of_executed_units:\s*(\d+)', out)
+  ctx.count('fuzz_executions', int(m.group(1)) if m else 0)
+  ctx.count('fuzz_shards')
+  if p.returncode != 0:
+    crash = None
+    for f in sorted(os.listdir(art)):
+      with open(os.path.join(art, f), 'rb') as fh:
+        crash = fh.read()[:2000]
+      break
+    summary = [l for l in out.splitlines() if 'ERROR' in l or 'SUMMARY' in l or 'runtime error' in l][:5]
+    ctx.violation(None, 'the C++ parser aborts / a sanitizer reports on a byte-level input (libFuzzer): %s' % ' | '.join(summary)[:400],
+                  {'kind': 'fuzz', 'input_repr': repr(crash), 'report': out[-3000:]})
 
 
 def parse_one(text, mode, import_root=None):
@@ -112,6 +158,8 @@ def run_shard(ctx):
   try:
     for i in range(ctx.params['n_cases']):
       run_case(ctx, ctx.rng.randrange(1 << 48), i, scratch, cov)
+    if ctx.tier == 'thorough':
+      fuzz_native(ctx, scratch)
   finally:
     shutil.rmtree(scratch, ignore_errors=True)
   for k, v in cov.items():
@@ -233,6 +281,8 @@ def finalize(agg, tier):
 
 def replay(w):
   pipeline.mods()
+  if w.get('kind') == 'fuzz':
+    return True, 'libFuzzer witness (re-run: .build/logica_parse_fuzz_* <file with the input>):\ninput: %s\n%s' % (w.get('input_repr'), w.get('report', '')[-1500:])
   build.install(build.ensure('prod'))
   scratch = repo.scratch_dir('c06r')
   try:
